@@ -455,8 +455,8 @@ pub fn run(ctx: Ctx) -> ! {
         finish(ctx);
     }
     let cts = gen::class_types();
-    let vshort = ctx.pick(5usize, 7);
-    let rshort = ctx.pick(4usize, 6);
+    let vshort = ctx.pick(6usize, 7);
+    let rshort = ctx.pick(5usize, 6);
     let sweep_limit = ctx.pick(72usize, 110);
     let mut items: Vec<Item> = Vec::new();
     for ct in &cts {
